@@ -16,13 +16,18 @@
          (C01_*_refuted_outside_Nstar); there integrity rests on the checksum;
      (D) fragments tile a packet, so an exact tag buffer carries exactly the packet's bytes;
      (E) ties of the abstract rules to the concrete models Server.v / Client.v (which the
-         correspondence runs tie to iodined.c / client.c);
+         correspondence runs tie to iodined.c / client.c): the rules equal the concrete decision
+         expressions, and the real handlers are PROVED to update their reassembly state as the rules
+         prescribe (server handle_data through its staged form data_pre; client tunnel_dns through
+         its staged form td_down / td_accept), delivering exactly on "accepted and last flag";
      (F) raw UDP mode: a data frame decodes to exactly its payload.
    Byte transport of one fragment (hostname codec, DNS encode/decode) is C07/C08/C09.
    C01_partial: the full statement "for all network behaviours" is not proved (and is false without
    the checksum, see (C)); what is missing is a probabilistic argument about Adler-32. *)
 From Coq Require Import List Arith Bool Lia ZArith NArith.
-From Iodine Require Import Base ProtoUp ProtoUpProofs ProtoDown ProtoDownProofs Server Client ProtoTie.
+From RecordUpdate Require Import RecordUpdate.
+From Iodine Require Import Base ProtoUp ProtoUpProofs ProtoDown ProtoDownProofs Server Client ProtoTie
+  ServerAnswerData ClientStages ProtoRefine.
 From Iodine.Generated Require Import SrcConsts.
 Import ListNotations.
 
@@ -109,3 +114,73 @@ Theorem C01_raw_frame_exact :
   match unz data with Some p => [CTun p] | None => [] end.
 Proof. exact raw_down_roundtrip. Qed.
 Print Assumptions C01_raw_frame_exact.
+
+(* (E, continued) the server's data handler follows recv_rule: with none of the early exits (bad user / source,
+   cached answer, remembered duplicate, duplicate of a pending query) handle_data is the staged tail, whose
+   reassembly step is an equation on the rule, and the buffer goes to handle_full_packet exactly when the chunk
+   was accepted and carries the last flag *)
+Theorem C01_server_reassembly_follows_rule :
+  (forall u inb dl,
+     let u1 := process_downstream_ack u (Z.of_N (dn_seq_of inb)) (Z.of_N (dn_frag_of inb)) in
+     let ip := u_in u1 in
+     data_pre u inb dl =
+     match srv_rule_concrete (p_seqno ip) (p_fragment ip) (up_seq_of inb) (up_frag_of inb) with
+     | Ignore => (u1, false, lastflag_of inb)
+     | NewPacket => (append_in (u1 <| u_in := reset_in ip (up_seq_of inb) (up_frag_of inb) |>) inb dl, true, lastflag_of inb)
+     | NextFragment => (append_in (u1 <| u_in := ip <| p_fragment := Z.of_N (up_frag_of inb) |> |>) inb dl, true, lastflag_of inb)
+     end) /\
+  (forall u2 inb dl,
+     let ip2 := u_in u2 in
+     let piece := firstn (N.to_nat (65536 - p_offset ip2)) (chunk_bytes u2 inb dl) in
+     p_seqno (u_in (append_in u2 inb dl)) = p_seqno ip2 /\
+     p_fragment (u_in (append_in u2 inb dl)) = p_fragment ip2 /\
+     p_data (u_in (append_in u2 inb dl)) =
+       firstn (N.to_nat (p_offset ip2)) (p_data ip2 ++ repeat 0%N (N.to_nat (p_offset ip2))) ++ piece /\
+     p_len (u_in (append_in u2 inb dl)) = (p_len ip2 + N.of_nat (length piece))%N /\
+     p_offset (u_in (append_in u2 inb dl)) = (p_offset ip2 + N.of_nat (length piece))%N) /\
+  (forall unz c st now q inb dl,
+     data_guard c st now q inb = None ->
+     let i := N.to_nat (data_code inb) in
+     handle_data unz c st now q inb dl = data_tail unz st now q i inb dl /\
+     forall u3 ok lf, data_pre (getu st i) inb dl = (u3, ok, lf) ->
+       let st1 := upd st i (fun _ => u3) in
+       fst (data_tail unz st now q i inb dl) =
+         (let '(st2, _) := if ok && lf then handle_full_packet unz st1 now i else (st1, []) in
+          upd st2 i (fun _ => fst (d_users (getu st2 i) now q ok lf)))).
+Proof. exact (conj data_pre_follows_recv_rule (conj append_in_spec handle_data_reassembly)). Qed.
+Print Assumptions C01_server_reassembly_follows_rule.
+
+(* ... and the client's answer handler follows cli_rule (tunnel_dns = td_dispatch -> td_main -> td_recent -> td_down
+   by ClientStages.tunnel_dns_stages) *)
+Theorem C01_client_reassembly_follows_rule :
+  (forall unz s0 now d,
+     Client.tunnel_dns unz s0 now d =
+     if negb (c_dns s0) then raw_recv unz s0 now d
+     else td_dispatch unz s0 now (DnsMsg.client_extract (N.to_nat 65536) d (length d))) /\
+  (forall unz buf read2 nseq nfrag lastflag now_flag s6,
+     (2 < read2)%Z ->
+     let inp := c_in s6 in
+     (negb (nseq =? k_seqno inp)%N && Client.recent_seqno (k_seqno inp) nseq = false) ->
+     td_down unz buf read2 nseq nfrag lastflag now_flag s6 =
+     match cli_rule_concrete (k_seqno inp) (k_fragment inp) (k_len inp) nseq nfrag with
+     | CIgnore => (s6 <| c_ping_soon := 500%N |>, [], now_flag)
+     | CNew => td_accept unz buf read2 (Z.of_N nfrag) lastflag now_flag
+                 (s6 <| c_in := inp <| k_seqno := nseq |> <| k_fragment := Z.of_N nfrag |> <| k_len := 0%N |> |>)
+     | CWeird | CNext => td_accept unz buf read2 (Z.of_N nfrag) lastflag now_flag s6
+     end) /\
+  (forall unz buf read2 frag lastflag now_flag st,
+     let r := td_accept unz buf read2 frag lastflag now_flag st in
+     let s' := fst (fst r) in
+     let piece := firstn (N.to_nat (65536 - k_len (c_in st))) (skipn 2 (firstn (Z.to_nat read2) buf)) in
+     let data' := firstn (N.to_nat (k_len (c_in st))) (k_data (c_in st) ++ repeat 0%N (N.to_nat (k_len (c_in st)))) ++ piece in
+     k_seqno (c_in s') = k_seqno (c_in st) /\ k_fragment (c_in s') = frag /\ k_data (c_in s') = data' /\
+     k_len (c_in s') = (if lastflag then 0 else k_len (c_in st) + N.of_nat (length piece))%N /\
+     snd (fst r) = (if lastflag
+                    then match unz (firstn (N.to_nat (k_len (c_in st) + N.of_nat (length piece))) data') with Some p => [CTun p] | None => [] end
+                    else [])) /\
+  (forall unz buf read2 nseq nfrag lastflag now_flag s6,
+     (read2 <= 2)%Z -> td_down unz buf read2 nseq nfrag lastflag now_flag s6 = (s6, [], now_flag)).
+Proof.
+  exact (conj (fun unz => tunnel_dns_stages unz) (conj td_down_follows_cli_rule (conj td_accept_spec td_down_dataless))).
+Qed.
+Print Assumptions C01_client_reassembly_follows_rule.
